@@ -46,7 +46,7 @@ typed_array<laydest> graphic::mapping::destinations(valsrc src, int client) cons
 		if (mpt_mapping_cmp(&map, &src, client)) {
 			continue;
 		}
-		arr.set(arr.length(), map.dest);
+		arr.insert(arr.length(), map.dest);
 	}
 	return arr;
 }
